@@ -1,3 +1,17 @@
+// Harness for C10: cancellation of pdfcpu.ReadWithContext.
+//
+// A counting context (Err() returns nil k times, then context.Canceled for ever) is handed to
+// the real reader.  For every input document and every tested flip point k:
+//
+//	O (oracle, on the implementation): once a poll has seen the cancellation the read must return
+//	  an error matching context.Canceled and a nil *model.Context; if no poll saw it the read must
+//	  finish like the uncancelled read; the number of polls at/after the flip ("late polls") must
+//	  stay within the model's stage bound.
+//	K (correspondence): the poll trace of the uncancelled read (call stacks of every Err() call)
+//	  is parsed into the model's `shape`; the extracted Coq model then has to predict, for every
+//	  k, the class of the result, the exact number of late polls and the total number of polls.
+//	  K runs with the stats logger set (dereferenceObjectsSorted: deterministic order); the
+//	  default dereferenceObjectsRaw order (Go map iteration) is covered by O.
 package main
 
 import (
@@ -5,116 +19,647 @@ import (
 	"context"
 	"errors"
 	"fmt"
+	"io"
+	stdlog "log"
 	"os"
+	"path/filepath"
 	"runtime"
+	"sort"
 	"strings"
 	"time"
 
 	"github.com/pdfcpu/pdfcpu/pkg/api"
+	"github.com/pdfcpu/pdfcpu/pkg/log"
 	"github.com/pdfcpu/pdfcpu/pkg/pdfcpu"
 	"github.com/pdfcpu/pdfcpu/pkg/pdfcpu/model"
+	"verif/vh"
 )
+
+const stageBound = 6 // = Model.stage_bound (checked against the model at run time)
+
+type event struct {
+	frames []string // innermost first, function base names
+	line   int      // line of the innermost frame
+}
 
 type cctx struct {
 	context.Context
-	k     int
-	n     int
-	sites []string
-	rec   bool
-	flipT time.Time
+	k       int // flip index, -1 = never
+	n       int
+	recAll  bool
+	events  []event // recAll: every poll; else: the first polls at/after the flip
+	flipT   time.Time
+	lastT   time.Time
+	maxGap  time.Duration
+	timeGap bool
+}
+
+func (c *cctx) capture() event {
+	pcs := make([]uintptr, 48)
+	m := runtime.Callers(3, pcs)
+	fr := runtime.CallersFrames(pcs[:m])
+	var ev event
+	for {
+		f, more := fr.Next()
+		fn := f.Function
+		if j := strings.LastIndex(fn, "."); j >= 0 {
+			fn = fn[j+1:]
+		}
+		if fn == "ReadWithContext" || fn == "main" {
+			break
+		}
+		if len(ev.frames) == 0 {
+			ev.line = f.Line
+		}
+		ev.frames = append(ev.frames, fn)
+		if !more {
+			break
+		}
+	}
+	return ev
 }
 
 func (c *cctx) Err() error {
 	i := c.n
 	c.n++
-	if c.rec {
-		pcs := make([]uintptr, 24)
-		m := runtime.Callers(2, pcs)
-		fr := runtime.CallersFrames(pcs[:m])
-		var st []string
-		for {
-			f, more := fr.Next()
-			fn := f.Function
-			if j := strings.LastIndex(fn, "."); j >= 0 {
-				fn = fn[j+1:]
-			}
-			if fn == "main" || fn == "ReadWithContext" {
-				break
-			}
-			st = append(st, fmt.Sprintf("%s:%d", fn, f.Line))
-			if !more {
-				break
-			}
+	if c.timeGap {
+		now := time.Now()
+		if !c.lastT.IsZero() && now.Sub(c.lastT) > c.maxGap {
+			c.maxGap = now.Sub(c.lastT)
 		}
-		c.sites = append(c.sites, strings.Join(st, "<"))
+		c.lastT = now
+	}
+	if c.recAll {
+		c.events = append(c.events, c.capture())
 	}
 	if c.k >= 0 && i >= c.k {
 		if i == c.k {
 			c.flipT = time.Now()
+		}
+		if !c.recAll && len(c.events) < 12 {
+			c.events = append(c.events, c.capture())
 		}
 		return context.Canceled
 	}
 	return nil
 }
 
-func main() {
-	api.DisableConfigDir()
-	f := os.Args[1]
-	b, _ := os.ReadFile(f)
-	if strings.HasPrefix(f, "gen:") {
-		var n int
-		fmt.Sscanf(f, "gen:%d", &n)
-		b = genXRefStreamDoc(n)
-		os.WriteFile("/tmp/C10-scratch/gen.pdf", b, 0o644)
-	}
-	conf := model.NewDefaultConfiguration()
-	if len(os.Args) > 2 && os.Args[2] == "strict" {
-		conf.ValidationMode = model.ValidationStrict
-	}
-	c := &cctx{Context: context.Background(), k: -1, rec: os.Getenv("SITES") != ""}
-	_, err := pdfcpu.ReadWithContext(c, bytes.NewReader(b), conf)
-	total := c.n
-	if c.rec {
-		m := map[string]int{}
-		for _, s := range c.sites {
-			m[s]++
+func has(ev event, fn string) bool {
+	for _, f := range ev.frames {
+		if f == fn {
+			return true
 		}
-		for s, n := range m {
-			fmt.Println("SITE", n, s)
-		}
-		return
 	}
-	fmt.Println("total", total, err)
-	maxExtra := 0
-	kmax := total
-	if kmax > 40 {
-		kmax = 40
-	}
-	t0 := time.Now()
-	pdfcpu.ReadWithContext(context.Background(), bytes.NewReader(b), conf)
-	fmt.Println("full read", time.Since(t0))
-	for k := 0; k <= kmax; k++ {
-		c := &cctx{Context: context.Background(), k: k, rec: true}
-		ctx, err := pdfcpu.ReadWithContext(c, bytes.NewReader(b), conf)
-		el := time.Since(c.flipT)
-		extra := c.n - k - 1
-		if extra > maxExtra {
-			maxExtra = extra
+	return false
+}
+
+// ---- shape reconstruction from the uncancelled trace ----
+
+type fobj struct{ b, k, p int }
+
+func (o fobj) String() string {
+	return fmt.Sprintf("%d.%d.%d", o.b-1, o.k, o.p)
+}
+
+type section struct {
+	stream bool
+	keys   int
+	o      fobj
+}
+type ostream struct {
+	o fobj
+	n int
+}
+type entry struct {
+	parse bool
+	o     fobj
+}
+type shape struct {
+	sections []section
+	enc      int
+	ostreams []ostream
+	entries  []entry
+	loop2    int
+	repoff   bool
+	firstXk  int // poll index of the first buffer poll of the first xref-stream section, -1 if none
+}
+
+// addObjPoll adds one poll seen inside an object read to o; phase order must be buffer, keys, post.
+func addObjPoll(o *fobj, ev event, post bool) error {
+	top := ev.frames[0]
+	switch {
+	case post:
+		o.p++
+	case top == "buffer" || top == "DetectKeywordsWithContext":
+		if o.k > 0 || o.p > 0 {
+			return errors.New("buffer poll after key/post poll")
 		}
-		if extra > 0 || !errors.Is(err, context.Canceled) || ctx != nil {
-			fmt.Println("k", k, "extra", extra, "err", err, ctx != nil, el)
-			if k < len(c.sites) {
-				for _, s := range c.sites[k:min(len(c.sites), k+6)] {
-					fmt.Println("    ", s)
+		o.b++
+	case top == "processDictKeys":
+		if o.p > 0 {
+			return errors.New("key poll after post poll")
+		}
+		o.k++
+	default:
+		return fmt.Errorf("unknown poll site %s", top)
+	}
+	return nil
+}
+
+func buildShape(evs []event) (*shape, error) {
+	sh := &shape{firstXk: -1}
+	// the two poll lines of dereferenceObjectsSorted
+	lines := map[int]bool{}
+	for _, ev := range evs {
+		if ev.frames[0] == "dereferenceObjectsSorted" {
+			lines[ev.line] = true
+		}
+	}
+	var ls []int
+	for l := range lines {
+		ls = append(ls, l)
+	}
+	sort.Ints(ls)
+	if len(ls) != 2 {
+		return nil, fmt.Errorf("dereferenceObjectsSorted polls at %d distinct lines, want 2", len(ls))
+	}
+	stage := 0
+	for i, ev := range evs {
+		top := ev.frames[0]
+		switch {
+		case has(ev, "bypassXrefSection"):
+			return nil, errors.New("repair path in the uncancelled read")
+		case has(ev, "buildXRefTableStartingAt"):
+			if stage > 0 {
+				return nil, errors.New("xref poll after later stage")
+			}
+			if top == "buildXRefTableStartingAt" {
+				sh.sections = append(sh.sections, section{})
+				continue
+			}
+			if len(sh.sections) == 0 {
+				return nil, errors.New("xref poll before loop head")
+			}
+			cur := &sh.sections[len(sh.sections)-1]
+			switch {
+			case has(ev, "tryXRefSection") && has(ev, "processTrailer") && top == "processDictKeys" && !has(ev, "parseTrailerDict"):
+				if cur.stream {
+					return nil, errors.New("mixed section")
 				}
+				cur.keys++
+			case has(ev, "parseXRefStream") && !has(ev, "tryXRefSection"):
+				if cur.keys > 0 {
+					return nil, errors.New("mixed section")
+				}
+				if !cur.stream && sh.firstXk < 0 {
+					sh.firstXk = i
+				}
+				cur.stream = true
+				if err := addObjPoll(&cur.o, ev, has(ev, "xRefStreamDict")); err != nil {
+					return nil, err
+				}
+			default:
+				return nil, fmt.Errorf("unsupported xref poll site %v", ev.frames)
+			}
+		case has(ev, "checkForEncryption"):
+			return nil, errors.New("encrypted")
+		case has(ev, "decodeObjectStreams"):
+			if stage > 1 {
+				return nil, errors.New("object stream poll after deref stage")
+			}
+			stage = 1
+			if top == "decodeObjectStreams" {
+				sh.ostreams = append(sh.ostreams, ostream{})
+				continue
+			}
+			if len(sh.ostreams) == 0 {
+				return nil, errors.New("object stream poll before loop head")
+			}
+			cur := &sh.ostreams[len(sh.ostreams)-1]
+			if top == "buildObjectArrayForObjectStream" {
+				cur.n++
+				continue
+			}
+			if cur.n > 0 {
+				return nil, errors.New("object poll after object array")
+			}
+			if err := addObjPoll(&cur.o, ev, has(ev, "loadEncodedStreamContent")); err != nil {
+				return nil, err
+			}
+		case has(ev, "dereferenceObjects"):
+			stage = 2
+			if top == "dereferenceObjectsSorted" {
+				if ev.line == ls[0] {
+					if sh.loop2 > 0 {
+						return nil, errors.New("loop1 poll after loop2")
+					}
+					sh.entries = append(sh.entries, entry{})
+				} else {
+					sh.loop2++
+				}
+				continue
+			}
+			if len(sh.entries) == 0 || sh.loop2 > 0 {
+				return nil, errors.New("entry poll outside loop1")
+			}
+			cur := &sh.entries[len(sh.entries)-1]
+			cur.parse = true
+			if err := addObjPoll(&cur.o, ev, has(ev, "loadStreamDict")); err != nil {
+				return nil, err
+			}
+		default:
+			return nil, fmt.Errorf("unsupported poll site %v", ev.frames)
+		}
+	}
+	for _, s := range sh.sections {
+		if s.stream && s.o.b < 1 {
+			return nil, errors.New("xref stream without buffer poll")
+		}
+	}
+	for _, s := range sh.ostreams {
+		if s.o.b < 1 {
+			return nil, errors.New("object stream without buffer poll")
+		}
+	}
+	np := 0
+	for _, e := range sh.entries {
+		if e.parse {
+			np++
+			if e.o.b < 1 {
+				return nil, errors.New("entry without buffer poll")
 			}
 		}
 	}
-	fmt.Println("maxExtra", maxExtra)
+	if sh.loop2 < np || sh.loop2 > len(sh.entries) {
+		return nil, errors.New("loop2 count out of range")
+	}
+	return sh, nil
 }
 
-// genXRefStreamDoc builds a PDF with n filler objects (uncompressed) and an uncompressed xref stream.
-func genXRefStreamDoc(n int) []byte {
+func (sh *shape) args(relaxed bool, nfile int, k int) []string {
+	var secs, oss, ents []string
+	for _, s := range sh.sections {
+		if s.stream {
+			secs = append(secs, "X"+s.o.String())
+		} else {
+			secs = append(secs, fmt.Sprintf("T%d", s.keys))
+		}
+	}
+	for _, s := range sh.ostreams {
+		oss = append(oss, fmt.Sprintf("%s.%d", s.o.String(), s.n))
+	}
+	np := 0
+	for _, e := range sh.entries {
+		if e.parse {
+			np++
+		}
+	}
+	cached := sh.loop2 - np
+	run, runKind := 0, ""
+	flush := func() {
+		if run > 0 {
+			ents = append(ents, fmt.Sprintf("%s*%d", runKind, run))
+		}
+		run = 0
+	}
+	for _, e := range sh.entries {
+		if e.parse {
+			flush()
+			ents = append(ents, "P"+e.o.String())
+			continue
+		}
+		kind := "F"
+		if cached > 0 {
+			kind = "C"
+			cached--
+		}
+		if kind != runKind {
+			flush()
+			runKind = kind
+		}
+		run++
+	}
+	flush()
+	ks := "-"
+	if k >= 0 {
+		ks = fmt.Sprint(k)
+	}
+	return []string{vh.Bool(relaxed), vh.Bool(sh.repoff), "false", strings.Join(secs, ","), fmt.Sprint(nfile), fmt.Sprint(sh.enc),
+		strings.Join(oss, ","), strings.Join(ents, ","), ks}
+}
+
+// ---- running the reader ----
+
+type result struct {
+	class  string // ok | ctx | other
+	late   int
+	polls  int
+	docNil bool
+	err    error
+	after  time.Duration
+	events []event
+	panic  string
+	repoff bool
+}
+
+func newConf(relaxed bool) *model.Configuration {
+	conf := model.NewDefaultConfiguration()
+	if relaxed {
+		conf.ValidationMode = model.ValidationRelaxed
+	} else {
+		conf.ValidationMode = model.ValidationStrict
+	}
+	return conf
+}
+
+func readWith(b []byte, relaxed bool, c *cctx) (res result) {
+	defer func() {
+		if p := recover(); p != nil {
+			res.class = "panic"
+			res.panic = fmt.Sprint(p)
+			res.polls = c.n
+		}
+	}()
+	ctx, err := pdfcpu.ReadWithContext(c, bytes.NewReader(b), newConf(relaxed))
+	res.polls = c.n
+	res.err = err
+	res.docNil = ctx == nil
+	if ctx != nil && ctx.Read != nil {
+		res.repoff = ctx.Read.RepairOffset > 0
+	}
+	res.events = c.events
+	if c.k >= 0 && c.n > c.k {
+		res.late = c.n - c.k
+		res.after = time.Since(c.flipT)
+	}
+	switch {
+	case err == nil:
+		res.class = "ok"
+	case errors.Is(err, context.Canceled):
+		res.class = "ctx"
+	default:
+		res.class = "other"
+	}
+	return res
+}
+
+func setSorted(on bool) {
+	if on {
+		log.SetStatsLogger(stdlog.New(io.Discard, "", 0))
+	} else {
+		log.SetStatsLogger(nil)
+	}
+}
+
+type doc struct {
+	name string
+	b    []byte
+}
+
+func main() {
+	r := vh.Start("C10")
+	defer r.Finish()
+	api.DisableConfigDir()
+	log.DisableLoggers()
+
+	r.Case("stage_bound", nil, fmt.Sprint(stageBound))
+
+	repo := os.Getenv("VERIF_REPO")
+	if repo == "" {
+		repo = "/repo"
+	}
+	emptied := map[string]bool{}
+	if eb, err := os.ReadFile("/root/.vp/EMPTIED_FILES.txt"); err == nil {
+		for _, l := range strings.Split(string(eb), "\n") {
+			emptied[filepath.Base(strings.TrimSpace(l))] = true
+		}
+	}
+	var docs []doc
+	docs = append(docs,
+		doc{"gen:xrefstream-40", genDoc(40, true)},
+		doc{"gen:xreftable-40", genDoc(40, false)},
+		doc{"gen:xrefstream-1200", genDoc(1200, true)},
+		doc{"gen:xreftable-1200", genDoc(1200, false)},
+		doc{"gen:repaired-xref-25", genRepaired(25)},
+	)
+	if r.Thorough() {
+		docs = append(docs, doc{"gen:xrefstream-100000", genDoc(100000, true)})
+	}
+	var files []string
+	for _, pat := range []string{"pkg/testdata/*.pdf", "pkg/testdata/*.PDF", "pkg/testdata/pdf20/*.pdf", "pkg/samples/basic/*.pdf"} {
+		m, _ := filepath.Glob(filepath.Join(repo, pat))
+		files = append(files, m...)
+	}
+	sort.Strings(files)
+	for _, f := range files {
+		if emptied[filepath.Base(f)] {
+			continue
+		}
+		b, err := os.ReadFile(f)
+		if err != nil || len(b) == 0 {
+			continue
+		}
+		docs = append(docs, doc{strings.TrimPrefix(f, repo+"/"), b})
+	}
+
+	budget := time.Duration(r.Pick(24, 420)) * time.Second
+	start := time.Now()
+	perDoc := budget / time.Duration(len(docs))
+	var maxLate, maxLateOutside int
+	reported := map[string]bool{}
+	nShapeOK, nShapeBad := 0, 0
+	var maxAfter, maxGap time.Duration
+	var maxAfterDoc, maxGapDoc string
+
+	for _, d := range docs {
+		docStart := time.Now()
+		for _, relaxed := range []bool{true, false} {
+			mode := "strict"
+			if relaxed {
+				mode = "relaxed"
+			}
+			// uncancelled, default (Raw) order, with gap timing
+			setSorted(false)
+			c0 := &cctx{Context: context.Background(), k: -1, timeGap: true}
+			t0 := time.Now()
+			base := readWith(d.b, relaxed, c0)
+			full := time.Since(t0)
+			if base.class == "panic" {
+				r.OracleFail("panic-in-read", map[string]any{"doc": d.name, "mode": mode}, base.panic)
+				continue
+			}
+			if base.class != "ok" {
+				r.Count("doc:" + mode + ":not-readable")
+				continue
+			}
+			r.Count("doc:" + mode + ":readable")
+			if c0.maxGap > maxGap {
+				maxGap, maxGapDoc = c0.maxGap, d.name+"/"+mode
+			}
+			total := base.polls
+
+			// shape from the Sorted trace
+			setSorted(true)
+			cs := &cctx{Context: context.Background(), k: -1, recAll: true}
+			bs := readWith(d.b, relaxed, cs)
+			var sh *shape
+			var shErr error
+			if bs.class != "ok" {
+				shErr = errors.New("sorted read failed")
+			} else {
+				sh, shErr = buildShape(cs.events)
+				if shErr == nil {
+					sh.repoff = bs.repoff
+				}
+			}
+			totalS := bs.polls
+			nfile := 0
+			if shErr == nil && sh.firstXk >= 0 {
+				// calibration: how many objects the relaxed xref repair walks for this file
+				cc := &cctx{Context: context.Background(), k: sh.firstXk}
+				cr := readWith(d.b, true, cc)
+				nfile = cr.late - 2
+				if nfile < 0 {
+					shErr = errors.New("calibration failed")
+				}
+			}
+			if os.Getenv("C10_DEBUG") != "" && shErr == nil {
+				fmt.Fprintln(os.Stderr, "SHAPE", d.name, mode, strings.Join(sh.args(relaxed, nfile, -1), " "))
+			}
+			if os.Getenv("C10_DEBUG") == "shapes" {
+				continue
+			}
+			if shErr != nil {
+				r.Count("shape:unsupported:" + shErr.Error())
+				nShapeBad++
+			} else {
+				r.Count("shape:ok")
+				nShapeOK++
+			}
+
+			// flip points
+			ks := map[int]bool{0: true, 1: true, total: true, total + 1: true, total - 1: true}
+			dense := r.Pick(60, 400)
+			if total <= dense {
+				for k := 0; k <= total; k++ {
+					ks[k] = true
+				}
+			} else {
+				for k := 0; k < dense/3; k++ {
+					ks[k] = true
+					ks[total-k] = true
+				}
+				for i := 0; i < dense/3; i++ {
+					ks[r.Rand.Intn(total)] = true
+				}
+			}
+			var kl []int
+			for k := range ks {
+				if k >= 0 {
+					kl = append(kl, k)
+				}
+			}
+			sort.Ints(kl)
+			slow := full > 60*time.Millisecond
+			for idx, k := range kl {
+				if time.Since(docStart) > perDoc && idx > 3 && !(k >= total-1) {
+					r.Count("budget:skipped-flip-points")
+					continue
+				}
+				for _, sorted := range []bool{false, true} {
+					if sorted && (shErr != nil || (slow && idx > 8 && k < total-1)) {
+						continue
+					}
+					setSorted(sorted)
+					tot := total
+					if sorted {
+						tot = totalS
+					}
+					c := &cctx{Context: context.Background(), k: k}
+					res := readWith(d.b, relaxed, c)
+					in := map[string]any{"doc": d.name, "mode": mode, "k": k, "sorted": sorted, "polls_uncancelled": tot}
+					r.Count("run:" + mode)
+					// ---- oracle ----
+					switch {
+					case res.class == "panic":
+						r.OracleFail("panic-in-read", in, res.panic)
+					case res.polls <= k: // the flip was never observed
+						if res.class != "ok" || res.docNil {
+							r.OracleFail("unobserved-cancel-changes-result", in, fmt.Sprintf("class=%s err=%v", res.class, res.err))
+						} else {
+							r.OracleOK()
+						}
+						r.Count("flip:not-observed")
+					case res.class == "ok":
+						r.OracleFail("cancel-ignored", in, fmt.Sprintf("read finished although %d polls saw the cancelled context", res.late))
+					case res.class != "ctx":
+						r.OracleFail("cancel-error-not-context", in, fmt.Sprintf("err=%q does not match context.Canceled", res.err))
+					case !res.docNil:
+						r.OracleFail("cancel-returned-document", in, "non-nil *model.Context returned with the context error")
+					case k == 0 && res.late != 1:
+						r.OracleFail("precancelled-not-immediate", in, fmt.Sprintf("%d polls on an already cancelled context", res.late))
+					case res.late > stageBound:
+						class := "cancel-late-polls"
+						for _, ev := range res.events {
+							if has(ev, "bypassXrefSection") && has(ev, "parseXRefStreamOrRepair") && relaxed {
+								class = "cancel-swallowed-by-xref-repair"
+							}
+						}
+						if reported[d.name+mode+class] {
+							r.Count("flip:late>bound:" + class)
+							break
+						}
+						reported[d.name+mode+class] = true
+						in["late_polls"] = res.late
+						in["after_us"] = res.after.Microseconds()
+						in["full_read_us"] = full.Microseconds()
+						r.OracleFail(class, in, fmt.Sprintf("%d polls saw the cancelled context before the read returned (stage bound %d); %v after the flip, full read %v",
+							res.late, stageBound, res.after, full))
+						r.Count("flip:late>bound:" + class)
+					default:
+						r.OracleOK()
+						r.Count("flip:observed")
+					}
+					if res.late > maxLate {
+						maxLate = res.late
+					}
+					if res.late <= stageBound && res.late > maxLateOutside {
+						maxLateOutside = res.late
+					}
+					if res.after > maxAfter {
+						maxAfter, maxAfterDoc = res.after, fmt.Sprintf("%s/%s k=%d", d.name, mode, k)
+					}
+					// ---- correspondence ----
+					if sorted {
+						kk := k
+						cls := res.class
+						if cls == "other" {
+							cls = "other:" + vh.Hex([]byte(fmt.Sprint(res.err)))
+						}
+						r.Case("read", sh.args(relaxed, nfile, kk), fmt.Sprintf("%s:%d:%d", cls, res.late, res.polls))
+					}
+				}
+			}
+		}
+		if time.Since(start) > budget+20*time.Second {
+			r.Count("budget:docs-cut")
+			break
+		}
+	}
+	setSorted(false)
+	// the trace parser must still understand the reader: otherwise K silently covers nothing
+	if nShapeOK >= 4*nShapeBad && nShapeOK > 0 {
+		r.Case("shapes", nil, "ok")
+	} else {
+		r.Case("shapes", nil, fmt.Sprintf("degraded:%d/%d", nShapeOK, nShapeOK+nShapeBad))
+	}
+	r.Sample(map[string]any{"max_late_polls": maxLate, "max_late_polls_within_bound": maxLateOutside,
+		"max_time_after_flip_us": maxAfter.Microseconds(), "max_time_after_flip_at": maxAfterDoc,
+		"max_gap_between_polls_us": maxGap.Microseconds(), "max_gap_doc": maxGapDoc})
+}
+
+// genDoc builds a PDF with n filler objects and either an (uncompressed) xref stream or a classic xref table.
+func genDoc(n int, xrefStream bool) []byte {
 	var w bytes.Buffer
 	w.WriteString("%PDF-1.7\n%\xe2\xe3\xcf\xd3\n")
 	offs := []int{0}
@@ -126,20 +671,41 @@ func genXRefStreamDoc(n int) []byte {
 	obj("<</Type/Pages/Kids[3 0 R]/Count 1>>")
 	obj("<</Type/Page/Parent 2 0 R/MediaBox[0 0 200 200]>>")
 	for i := 0; i < n; i++ {
-		obj(fmt.Sprintf("<</K %d/V(filler)>>", i))
+		if i%7 == 3 {
+			s := fmt.Sprintf("BT (%d) Tj ET", i)
+			obj(fmt.Sprintf("<</Length %d>>\nstream\n%s\nendstream", len(s), s))
+		} else {
+			obj(fmt.Sprintf("<</K %d/V(filler)/D<</A 1/B[1 2 3]>>>>", i))
+		}
 	}
 	xoff := w.Len()
 	nr := len(offs)
-	var data bytes.Buffer
-	data.Write([]byte{0, 0, 0, 0, 0, 0xff, 0xff})
-	for i := 1; i < nr; i++ {
-		o := offs[i]
-		data.Write([]byte{1, byte(o >> 24), byte(o >> 16), byte(o >> 8), byte(o), 0, 0})
+	if xrefStream {
+		var data bytes.Buffer
+		data.Write([]byte{0, 0, 0, 0, 0, 0xff, 0xff})
+		for i := 1; i < nr; i++ {
+			o := offs[i]
+			data.Write([]byte{1, byte(o >> 24), byte(o >> 16), byte(o >> 8), byte(o), 0, 0})
+		}
+		data.Write([]byte{1, byte(xoff >> 24), byte(xoff >> 16), byte(xoff >> 8), byte(xoff), 0, 0})
+		fmt.Fprintf(&w, "%d 0 obj\n<</Type/XRef/Size %d/W[1 4 2]/Root 1 0 R/Length %d>>\nstream\n", nr, nr+1, data.Len())
+		w.Write(data.Bytes())
+		w.WriteString("\nendstream\nendobj\n")
+	} else {
+		fmt.Fprintf(&w, "xref\n0 %d\n0000000000 65535 f \n", nr)
+		for i := 1; i < nr; i++ {
+			fmt.Fprintf(&w, "%010d 00000 n \n", offs[i])
+		}
+		fmt.Fprintf(&w, "trailer\n<</Size %d/Root 1 0 R>>\n", nr)
 	}
-	data.Write([]byte{1, byte(xoff >> 24), byte(xoff >> 16), byte(xoff >> 8), byte(xoff), 0, 0})
-	fmt.Fprintf(&w, "%d 0 obj\n<</Type/XRef/Size %d/W[1 4 2]/Root 1 0 R/Length %d>>\nstream\n", nr, nr+1, data.Len())
-	w.Write(data.Bytes())
-	w.WriteString("\nendstream\nendobj\nstartxref\n")
-	fmt.Fprintf(&w, "%d\n%%%%EOF\n", xoff)
+	fmt.Fprintf(&w, "startxref\n%d\n%%%%EOF\n", xoff)
 	return w.Bytes()
+}
+
+// genRepaired: a classic-table document whose startxref points into the middle of the file,
+// so that the relaxed reader rebuilds the xref table (bypassXrefSection) even when not cancelled.
+func genRepaired(n int) []byte {
+	b := genDoc(n, false)
+	i := bytes.LastIndex(b, []byte("startxref\n"))
+	return append(append([]byte{}, b[:i]...), []byte("startxref\n77\n%%EOF\n")...)
 }
